@@ -45,6 +45,10 @@ type c08Pools struct {
 	names  []string
 	chains [][]byte
 	files  []func() *fit.File // constructors: a fresh, identical File per call
+	// twinGroups: [first, last] input indices of a group of look-alike streams; the last one is
+	// the stream the library rejects
+	twinFirst  int
+	twinGroups [][2]int
 }
 
 var (
@@ -114,6 +118,51 @@ func c08Pool() *c08Pools {
 				c08P.inputs = append(c08P.inputs, p.Bytes())
 				c08P.names = append(c08P.names, fmt.Sprintf("near#%d+%ds", k, delta))
 			}
+		}
+		// Twins: a stream V in which a known message defines one of its fields in a way the
+		// library rejects (an error, on its own), and streams P in which a message number the
+		// profile does not know - V's number plus 256, plus 512, with the high byte 0xFF - uses
+		// the very same definition bytes (valid: nothing is known about that message). Whatever a
+		// decoder remembers about definitions it has seen, V must still be rejected after P.
+		c08P.twinFirst = len(c08P.inputs)
+		prof := lib.Profile()
+		twinStream := func(g uint16, num, size, base byte) []byte {
+			pl := &ref.Plan{HeaderSize: 14, Proto: 0x20, ProfVer: 2115}
+			data := make([]byte, size)
+			for i := range data {
+				data[i] = byte(0x40 + i)
+			}
+			pl.Records = append(pl.Records,
+				ref.Record{IsDef: true, Local: 0, Global: 0, Fields: []ref.FieldDef{{Num: 0, Size: 1, Base: 0}}},
+				ref.Record{Local: 0, Data: [][]byte{{4}}},
+				ref.Record{IsDef: true, Local: 1, Global: g, Fields: []ref.FieldDef{{Num: num, Size: size, Base: base}}},
+				ref.Record{Local: 1, Data: [][]byte{data}})
+			return pl.Bytes()
+		}
+		// (chosen without calling the library: the pool must not leave anything behind in the
+		// process that builds it)
+		for gi, g := range []uint16{20, 19, 18, 21, 23, 34} {
+			var pf *ref.PField
+			for _, f := range prof.ByMesg[g] {
+				if bt := ref.BaseTypes[f.Base]; f.Kind == ref.KNative && !f.Array && bt.Integer && f.Num != 253 && f.Num != 254 {
+					pf = f
+					break
+				}
+			}
+			if pf == nil {
+				continue
+			}
+			cand := [][2]byte{{0x07, 6}, {0x88, 4}, {0x89, 8}}[gi%3] // a string / a float where the profile has an integer
+			first := len(c08P.inputs)
+			for i, alias := range []uint16{g + 256, g + 512, 0xFF00 | g} {
+				if !prof.Known[alias] {
+					c08P.inputs = append(c08P.inputs, twinStream(alias, pf.Num, cand[1], cand[0]))
+					c08P.names = append(c08P.names, fmt.Sprintf("twinP#%d.%d", g, i))
+				}
+			}
+			c08P.inputs = append(c08P.inputs, twinStream(g, pf.Num, cand[1], cand[0]))
+			c08P.names = append(c08P.names, fmt.Sprintf("twinV#%d", g))
+			c08P.twinGroups = append(c08P.twinGroups, [2]int{first, len(c08P.inputs) - 1})
 		}
 		// chains of accepted inputs
 		rng := lib.NewRand("C08.pool.chains", 0)
@@ -410,6 +459,16 @@ func c08History(h uint64) []string {
 		} else {
 			calls = append(calls, c08RandomCall(rng))
 		}
+	}
+	// one twin group per history: the valid look-alikes, then the stream that must be rejected
+	if len(p.twinGroups) > 0 {
+		tg := p.twinGroups[rng.Intn(len(p.twinGroups))]
+		pos := rng.Intn(len(calls))
+		var ins []string
+		for i := tg[0]; i <= tg[1]; i++ {
+			ins = append(ins, fmt.Sprintf("D:%d:%d", i, []int{0, 7}[rng.Intn(2)]))
+		}
+		calls = append(calls[:pos], append(ins, calls[pos:]...)...)
 	}
 	return calls
 }
